@@ -155,6 +155,16 @@ def run_case(item):
         return [V(f"remove | tracking-mismatch | flows,{feat}",
                   f"recipe remove({what}) on {form} of plate/mixture {mi}: {want_mg!r} mg were removed but get_container_flows "
                   f"reports out={got_out!r} in={got_in!r}", case, want_mg, got_out)], 'bad'
+    # activity discarded, in activity units (the mass of an enzyme is too small to show in mg)
+    want_u = float(sum(ref.measure(pp, {s: a}, 'U') for s, a in removed.items()))
+    try:
+        got_u = float(numpy.sum(recipe.get_container_flows(obj, 's', 'U')['out']))
+    except Exception as e:  # noqa
+        return [V(f"remove | tracking-raises | flows,{feat}", f"get_container_flows(..., 'U') raised {type(e).__name__}: {e}", case)], 'bad'
+    if abs(got_u - want_u) > 0.0006 * 4 + 1e-6 * want_u:
+        return [V(f"remove | tracking-mismatch | flows-activity,{feat}",
+                  f"recipe remove({what}) on {form} of plate/mixture {mi}: {want_u!r} U were removed but get_container_flows(..., 'U') "
+                  f"reports out={got_u!r}", case, want_u, got_u)], 'bad'
     return [], ('ok', bool(removed))
 
 
